@@ -280,7 +280,8 @@ impl EncodingType {
                 | (EncodingType::Null, EncodingType::I64) => EncodingType::I64,
                 (EncodingType::OptStr, EncodingType::Str)
                 | (EncodingType::Str, EncodingType::OptStr) => EncodingType::OptStr,
-                _ => unimplemented!("lub not implemented for {:?} and {:?}", self, other),
+                // Any two result types can be unified as `Val` (every result type casts to it)
+                _ => EncodingType::Val,
             }
         }
     }
